@@ -121,13 +121,17 @@ CLAIMED = {
     ),
     "C24": dict(
         level="fault_enumeration",
-        text="Restart.tla: (mechanism) a joint between two moving links captures body-fixed data at assembly; actions Advance/DeepCopy/Restart; "
-             "TLC checks ModelUnchanged and AngleKeepsMeaning for all histories up to the bound and rejects the as-found re-capturing design; "
+        text="Restart.tla: (mechanism) a joint between two moving links captures body-fixed data at assembly; actions Advance/DeepCopy/Restart/PostProcess "
+             "(a solver evaluating the system a posteriori along the rows of the leg); TLC checks ModelUnchanged, AngleKeepsMeaning, "
+             "TrackerKeepsMeaning and RowsKeepMeaning for all histories up to the bound and rejects the two as-found designs (re-capturing "
+             "restart; retrace with the end-of-run rotation counters); "
              "(plans) TLC enumerates all split plans of an N-step run. Every transition of the mechanism graph and long simulated histories "
              "are replayed into a real double pendulum and the body-fixed joint point/bases, constraint value, joint angle and parameters "
-             "are compared after each action; every split step k (plus nested splits, with/without deepcopy) is executed with every solver on "
-             "seven systems (revolute/spherical chains, spring on a revolute joint, sphere-plane and sphere-sphere contacts, a system starting "
-             "before t=0, bodies sharing initial-state arrays) and compared with the uninterrupted run.",
+             "are compared after each action (PostProcess runs the real ScipyIVP.solve with a stubbed integrator); every split step k (plus nested "
+             "splits, with/without deepcopy) is executed with every solver on nine systems (revolute/spherical chains, springs on revolute "
+             "joints incl. fast spinning bars, sphere-plane and sphere-sphere contacts, a system starting before t=0, bodies sharing "
+             "initial-state arrays) and compared with the uninterrupted run; after every segment the angle of every Revolute joint is compared "
+             "with the rotation accumulated along the rows.",
         note="Runs of 8 (thorough 12) steps with solver tolerances 1e-12, trajectories compared at 1e-7 relative (SciPy wrappers 1e-5). A "
              "restart rejected loudly by the consistency assertions (schemes that do not enforce that level) is repeated with the documented "
              "bypass and judged on the trajectory; the count is in the evidence.",
